@@ -19,10 +19,13 @@ EOf(r) == [i \in 1..Len(r.events) |->
              [type |-> e.type, sender |-> e.sender, skey |-> e.skey, membership |-> e.membership,
               plu |-> [u \in Users |-> e.plu[u]], jr |-> e.jr, prev |-> ToSet(e.prev), auth |-> ToSet(e.auth),
               depth |-> e.depth, ts |-> e.ts, idr |-> e.idr, sha |-> e.sha, rejected |-> FALSE, addl |-> ToSet(e.addl),
-              pud |-> e.pud]]
+              pud |-> e.pud, spell |-> e.spell]]
 SetsOf(r) == [k \in 1..Len(r.sets) |-> ToSet(r.sets[k])]
 
-Explains(r) == Resolve(EOf(r), r.ver, SetsOf(r)) = ToSet(r.got)
+\* (the spelling of the levels of a power-levels event is logged and must be one the room version reads; the
+\* definition reads the same levels from every spelling)
+Explains(r) == /\ \A i \in DOMAIN EOf(r) : SpellAdmitted(r.ver, EOf(r)[i].spell)
+               /\ Resolve(EOf(r), r.ver, SetsOf(r)) = ToSet(r.got)
 
 Init == l = 1 /\ bad = <<>>
 Step == /\ l <= Len(Trace)
